@@ -558,7 +558,9 @@ var helpers = []helper{
 		drainTokens(resp)
 		err = resp.Close()
 		return err == nil, err
-	}, reply: func(r *rand.Rand, req *xmltree.Node, n int) []*node { return result(el("query", "urn:example:q").add(el("item", ""))) }},
+	}, reply: func(r *rand.Rand, req *xmltree.Node, n int) []*node {
+		return result(el("query", "urn:example:q").add(el("item", "")))
+	}},
 	{name: "Session.EncodeIQ", call: func(ctx context.Context, e *env) (bool, error) {
 		resp, err := e.s.EncodeIQ(ctx, ping.IQ{IQ: stanza.IQ{Type: stanza.GetIQ, To: srv}})
 		if err != nil {
